@@ -33,11 +33,12 @@ NCPU = int(os.environ.get("VERIF_JOBS", "16"))
 class Violation(Exception):
     """The property does not hold for `case`.  key identifies the root-cause bucket (matched against known findings)."""
 
-    def __init__(self, key, message, case=None):
+    def __init__(self, key, message, case=None, tags=()):
         super().__init__("%s: %s" % (key, message))
         self.key = key
         self.message = message
         self.case = case
+        self.tags = tuple(tags)  # structural features of the case; a known finding may require one of them
 
 
 class HarnessError(Exception):
@@ -112,7 +113,7 @@ class Recorder:
     # --- violation handling -------------------------------------------------
     def known(self, v):
         for k in self.ctx.known:
-            if k["property"] == self.ctx.prop and v.key.startswith(k["key"]):
+            if k["property"] == self.ctx.prop and v.key.startswith(k["key"]) and (not k.get("tag") or k["tag"] in getattr(v, "tags", ())):
                 return k
         return None
 
